@@ -44,7 +44,7 @@ CHUNK = 1
 FLOORS = {
     "quick": {"distinct_nontrivial": 12,
               "mon": {"wallPressure_calls": 150, "solveWall": 40, "probe_evaluations": 8,
-                      "history_repeats": 12},
+                      "history_repeats": 12, "stationarity_probes": 6},
               "cls": {"finite-velocity": 6}},
     "thorough": {"distinct_nontrivial": 150,
                  "mon": {"wallPressure_calls": 2500, "solveWall": 500,
@@ -332,6 +332,53 @@ def run_case(case):
                          f"widths/offsets by {e:.2e} of the vev difference")
             except Exception as exc:
                 obs["tanh_error"] = repr(exc)[:120]
+            # --- the returned widths/offsets minimise the action of the converged solution:
+            # the real EOM.action, on the solve's own EOM (grid as left by the final
+            # evaluation), must not be lower at widths changed by +-10 % or offsets by +-0.1
+            try:
+                eomf = sv["eom"]
+                _, wpf, bresf, bbgf, _ = calls[-1]["out"]
+                vl_ = manager.thermodynamics.freeEnergyLow(
+                    float(res0.temperatureMinus)).fieldsAtMinimum
+                vh_ = manager.thermodynamics.freeEnergyHigh(
+                    float(res0.temperaturePlus)).fieldsAtMinimum
+                Tprof = np.asarray(bbgf.temperatureProfile)[1:-1]
+                d00 = bresf.Deltas.Delta00
+
+                def act(wid, off):
+                    return float(eomf.action(WallGo.WallParams(widths=np.array(wid, float),
+                                                               offsets=np.array(off, float)),
+                                             vl_, vh_, Tprof, d00))
+                w0, o0 = np.array(wpf.widths, float), np.array(wpf.offsets, float)
+                A0 = act(w0, o0)
+                worst = 0.0
+                where = None
+                for i in range(len(w0)):
+                    for f in (0.9, 1.1):
+                        w1 = w0.copy(); w1[i] *= f
+                        dA = act(w1, o0) - A0
+                        if dA < worst:
+                            worst, where = dA, f"width[{i}] x {f}"
+                    if i > 0:
+                        for dd in (-0.1, 0.1):
+                            o1 = o0.copy(); o1[i] += dd
+                            dA = act(w0, o1) - A0
+                            if dA < worst:
+                                worst, where = dA, f"offset[{i}] {dd:+}"
+                mon["stationarity_probes"] = mon.get("stationarity_probes", 0) + 1
+                # scale: the kinetic part of the action, sum (dphi)^2/(6 L)
+                scaleA = float(np.sum((np.asarray(vh_) - np.asarray(vl_)) ** 2 / (6 * w0)))
+                obs["action_drop"] = {"worst": worst, "where": where, "scale": scaleA}
+                # a 10 % change of a width around a true minimum raises the action by
+                # ~0.5 % of its kinetic part; a drop by more than 0.1 % of it means the
+                # returned parameters are > 10 % away from the minimum in that direction
+                if worst < -1e-3 * scaleA:
+                    fail("returned-wall-parameters-do-not-minimise-the-action",
+                         f"action of the converged solution is lower by {-worst:.3e} "
+                         f"({-worst / scaleA:.2e} of its kinetic part) at {where} than at the "
+                         f"returned widths {w0 * b['Tn']} /Tn, offsets {o0} (success reported)")
+            except Exception as exc:
+                obs["stationarity_error"] = repr(exc)[:150]
             # bounds
             Tn = b["Tn"]
             c = manager.config.configEOM
